@@ -4,7 +4,7 @@ from vlib.gen_traj import f2b, b2f, PINF, NINF, next_up, next_down
 from vlib.skyb import hx, rand_bytes
 
 PID = "C20"
-LEAN_MODULE = "Sb.Properties.C20Float"
+LEAN_MODULE = "Sb.Properties.C20Scale"
 THEOREMS = [
     "Sb.C20.init_inv", "Sb.C20.view_inv", "Sb.C20.growCap_ge", "Sb.C20.growCap_gt", "Sb.C20.realloc_spec",
     "Sb.C20.view_cannot_resize", "Sb.C20.view_cannot_grow", "Sb.C20.append_contents", "Sb.C20.resize_smaller", "Sb.C20.fill_size",
@@ -12,6 +12,7 @@ THEOREMS = [
     "Sb.C20.code_cruise_expression", "Sb.C20.profile_continuous_at_boundary", "Sb.C20.profile_monotone",
             "Sb.C20.lerp_zero", "Sb.C20.lerp_one", "Sb.C20.lerp_between", "Sb.C20.rgbw_reference_le", "Sb.C20.refParams_div_nonneg",
             "Sb.C20.conv_step_good", "Sb.C20.conv_history_good", "Sb.C20.conv_history_contract", "Sb.C20.conv_temperature_fresh",
+            "Sb.C20.scaleUpdate_spec", "Sb.C20.newScale_least", "Sb.C20.quotient_above", "Sb.C20.repr_gap", "Sb.C20.bump_table",
             "Sb.Proofs.roundF32_mono", "Sb.Proofs.roundF32_natCast"]
 NAN = 0x7FC00000
 RULE = ("travel time: grids of (distance, speed, acceleration) incl. the regime boundary distance = speed^2/acceleration and its "
